@@ -230,22 +230,23 @@ func seekFaults(c *mon.Ctx, idx int64, r *rand.Rand, s *gen.Stream, api string) 
 		}
 		return
 	}
-	// drain returns the items up to the first error (nil error = ErrNoMorePackets reached)
+	// drain calls until ErrNoMorePackets, keeping error results like the fault-free runs do; firstErr is the first error met
 	drain := func(dmx *astits.Demuxer) (got []Item, firstErr error, panicked string) {
 		for j := 0; j < len(s.Bytes)+64; j++ {
 			it, pn := next(dmx)
 			if pn != "" {
-				return got, nil, pn
+				return got, firstErr, pn
 			}
 			if errors.Is(it.Err, astits.ErrNoMorePackets) {
-				return got, nil, ""
+				return got, firstErr, ""
 			}
-			if it.Err != nil {
-				return got, it.Err, ""
+			if it.Err != nil && firstErr == nil {
+				firstErr = it.Err
 			}
+			it.Call = j
 			got = append(got, it)
 		}
-		return got, nil, ""
+		return got, firstErr, ""
 	}
 	observe := func(err error) {
 		if errors.Is(err, mon.ErrInjected) {
@@ -266,9 +267,13 @@ func seekFaults(c *mon.Ctx, idx int64, r *rand.Rand, s *gen.Stream, api string) 
 	switch {
 	case pn != "":
 		c.Violate("C18/seeker/panic:detection", "seeker", idx, pn, data)
-	case ferr != nil:
+	case ferr != nil && errors.Is(ferr, mon.ErrInjected):
 		observe(ferr)
+	case ferr != nil && firstErrIsNew(got, fresh0.Items):
+		observe(ferr) // an error the fault-free run does not have at that point: the failure was surfaced, without naming the cause
 	default:
+		// no additional error: then the failed Seek must not have cost anything (an input the fault-free run rejects as well
+		// compares equal here)
 		if d := itemsEqual(got, fresh0.Items); d != "" && tap.NSeeks > 0 {
 			c.Violate("C18/seeker/failed-seek-hidden-and-output-differs:detection:"+api, "seeker", idx, "Seek failed during packet-size detection, no error was returned, and the output differs from the fault-free run: "+d, data)
 		}
@@ -306,8 +311,8 @@ func seekFaults(c *mon.Ctx, idx int64, r *rand.Rand, s *gen.Stream, api string) 
 			got, ferr, pn = drain(dmx)
 			if pn != "" {
 				c.Violate("C18/seeker/panic:after-rewind", "seeker", idx, pn, data)
-			} else if d := itemsEqual(got, fresh.Items); d != "" || ferr != nil {
-				c.Violate("C18/seeker/rewind-reported-success-but-did-not-restart:"+cls, "seeker", idx, fmt.Sprintf("Seek failed, Rewind returned nil; afterwards: err=%v %s", ferr, d), data)
+			} else if d := itemsEqual(got, fresh.Items); d != "" {
+				c.Violate("C18/seeker/rewind-reported-success-but-did-not-restart:"+cls, "seeker", idx, fmt.Sprintf("Seek failed, Rewind returned nil; afterwards: first err=%v %s", ferr, d), data)
 			}
 			continue
 		}
@@ -324,11 +329,21 @@ func seekFaults(c *mon.Ctx, idx int64, r *rand.Rand, s *gen.Stream, api string) 
 			c.Violate("C18/seeker/panic:after-rewind", "seeker", idx, pn, data)
 			return
 		}
-		if d := itemsEqual(got, fresh.Items); d != "" || ferr != nil {
-			c.Violate("C18/seeker/differs-from-fresh-after-recovered-rewind:"+cls, "seeker", idx, fmt.Sprintf("err=%v %s", ferr, d), data)
+		if d := itemsEqual(got, fresh.Items); d != "" {
+			c.Violate("C18/seeker/differs-from-fresh-after-recovered-rewind:"+cls, "seeker", idx, fmt.Sprintf("first err=%v %s", ferr, d), data)
 		}
 		c.Count("recovered_rewinds_compared")
 	}
+}
+
+// firstErrIsNew tells whether the first error result of got sits where the fault-free run has none.
+func firstErrIsNew(got, base []Item) bool {
+	for k, it := range got {
+		if it.Err != nil {
+			return k >= len(base) || base[k].Err == nil
+		}
+	}
+	return false
 }
 
 type wop struct {
